@@ -271,7 +271,7 @@ const P_CS: Pool = (&["\\a", "\\b", "\\c", "~", "\\vpx", "\\vpy", "\\vpi", "\\co
 const P_NAME: Pool = (&["\\a", "\\b", "\\c", "~", "\\a", "\\b", "\\vpx", "\\vpi", "\\par", "\\count", "\\fi", "x", "\\a\\b", ""], 8);
 const P_CHAR: Pool = (&["`\\z", "`\\j", "`\\q", "`\\$", "`\\&", "`\\^", "`\\_", "`\\~", "`é", "`日", "`𝔸", "0", "127", "128", "255", "256", "1114111", "`\\x", "`\\a", "`\\{", "`\\}", "`\\\\", "`\\#", "`\\%", "`\\ ", "`\\^^M", "`\\1", "`\\=", "1114112", "55296", "-1", "\\count1 "], 15);
 const P_CAT: Pool = (&["11", "12", "0", "1", "2", "3", "4", "5", "6", "7", "8", "9", "10", "13", "14", "15", "16", "-1", "\\count1 "], 0);
-const P_FILE: Pool = (&["fa", "fb", "fc", "fd", "fe", "rec", "nofile", "missing", "a:b", "x>y", "/abs/path", "/vpwd/fa", "fa.tex", "../fa", "fa.", ".tex", "é", "\\jobname", "\\b", ""], 0);
+const P_FILE: Pool = (&["fa", "fb", "fc", "fd", "fe", "rec", "nofile", "missing", "a:b", "x>y", "a.b:c", "x.y>z", "a.b:c.d", "a.b/c", "/abs/path", "/vpwd/fa", "fa.tex", "../fa", "fa.", ".tex", "é", "\\jobname", "\\b", ""], 0);
 const P_STREAM: Pool = (&["1", "2", "0", "15", "1", "2", "16", "-1", "17", "\\count1 ", ""], 5);
 const P_TEXT: Pool = (&["a", "b", "x", "é", "日", "𝔸", " ", "\n", "\r\n", "\t", "~", "$", "&", "^", "_", "%c\n", "\n\n", "^^M", "^^5a", "\\ ", "\\\\", "abc def", "."], 0);
 const P_PARAMS: Pool = (&["", "#1", "#1#2", "#1#2#3", "#1#2#3#4#5#6#7#8#9", "#1#2#3#4#5#6#7#8#9#1", "#1.", "x.", "x#1y#2z", "#1#{", "#2", "#", "#1#1", "#0", "#1 #2 ", "#1\\b#2", ".#1.#2.", "#a"], 0);
@@ -888,6 +888,11 @@ fn regression_inputs() -> Vec<String> {
         "\\count1=-2147483647 \\ifcase\\count1 \\or\\or\\fi ",
         "\\openin 0.5/abs/path ",
         "\\input ../foo ",
+        // an extension delimiter in front of an area delimiter (TeX 516: the area delimiter resets it)
+        "\\input a.b:c ",
+        "\\input x.y>z ",
+        "\\openin1=a.b:c.d \\read1 to\\a ",
+        "\\input a.b/c ",
         "\\count1=2147483646 \\dimen1=.6\\count1 ",
         "\\def\\a#1.{[#1]}\\a{x}{y}.",
     ];
